@@ -413,7 +413,7 @@ def search(run: Run):
 def main():
     run = Run(
         PID,
-        ["RV.Props.C05", "RV.Bridge.Time"],
+        ["RV.Props.C05", "RV.Bridge.Time", "RV.Bridge.ScenarioRun"],
         ["RV/Model/Time.lean", "RV/Num/F64.lean"],
         "Lean 4 theorems over an operation-for-operation soft-binary64 model of the time conversions (error-bound proofs, not enumeration); "
         "bit-exact differential correspondence (float.as_integer_ratio == model rational) with the real stardate/clock/propagateTo code",
